@@ -240,3 +240,52 @@
           (= (>= (isum L lo W wo wn A n) (wsum W wo wn n))
              (forall ((j Int)) (! (=> (and (<= lo j) (< j (+ lo n))) (tvi A (select L j))) :pattern ((select L j)))))))
      :pattern ((lem_isum_all L lo W wo wn A n)))))
+
+; ---------------------------------------------------------------- solver-level vocabulary
+; assignment described by a model row: variable v is true iff its decision level is positive
+;@sig asgof : row -> asg
+(declare-fun asgof ((Array Int Int) Int) (Array Int Bool))
+(assert (forall ((R (Array Int Int)) (o Int) (v Int))
+  (! (= (select (asgof R o) v) (> (select R (+ o v)) 0)) :pattern ((select (asgof R o) v)))))
+; negation of an internal literal (specification of Lit.Negation)
+;@sig nlit : int -> int
+(define-fun nlit ((l Int)) Int (ite (= (mod l 2) 0) (+ l 1) (- l 1)))
+;@sig lem_psum_negl : row row rowz asg int -> bool
+(declare-fun lem_psum_negl ((Array Int Int) Int (Array Int Int) Int (Array Int Int) Int Bool (Array Int Bool) Int) Bool)
+;@lemma psum_negl
+(assert (forall ((L2 (Array Int Int)) (lo2 Int) (L (Array Int Int)) (lo Int) (W (Array Int Int)) (wo Int) (wn Bool) (A (Array Int Bool)) (n Int))
+  (! (and (lem_psum_negl L2 lo2 L lo W wo wn A n)
+      (=> (forall ((j Int)) (! (=> (and (<= lo2 j) (< j (+ lo2 n))) (and (= (select L2 j) (nlit (select L (+ lo (- j lo2))))) (>= (select L2 j) 0) (>= (select L (+ lo (- j lo2))) 0))) :pattern ((select L2 j))))
+          (= (psum L2 lo2 W wo wn A n) (- (wsum W wo wn n) (psum L lo W wo wn A n)))))
+     :pattern ((lem_psum_negl L2 lo2 L lo W wo wn A n)))))
+;@lemma wsum_ext
+(assert (forall ((W1 (Array Int Int)) (wo1 Int) (W2 (Array Int Int)) (wo2 Int) (n Int))
+  (! (=> (forall ((j Int)) (! (=> (and (<= wo1 j) (< j (+ wo1 n))) (= (select W1 j) (select W2 (+ wo2 (- j wo1))))) :pattern ((select W1 j))))
+         (= (wsum W1 wo1 false n) (wsum W2 wo2 false n)))
+     :pattern ((wsum W1 wo1 false n) (wsum W2 wo2 false n)))))
+;@sig lem_wsum_ones : row int -> bool
+(declare-fun lem_wsum_ones ((Array Int Int) Int Int) Bool)
+;@lemma wsum_ones
+(assert (forall ((W (Array Int Int)) (wo Int) (n Int))
+  (! (and (lem_wsum_ones W wo n)
+      (=> (forall ((j Int)) (! (=> (and (<= wo j) (< j (+ wo n))) (= (select W j) 1)) :pattern ((select W j))))
+          (= (wsum W wo false n) (ite (<= n 0) 0 n))))
+     :pattern ((lem_wsum_ones W wo n)))))
+; marker used as the trigger of quantifiers over assignments: mentioning asgmark(B) for a
+; particular assignment B instantiates every "for all assignments" fact at B
+;@sig asgmark : asg -> bool
+(declare-fun asgmark ((Array Int Bool)) Bool)
+(assert (forall ((B (Array Int Bool))) (! (asgmark B) :pattern ((asgmark B)))))
+; assignment described by a row of booleans (a returned model)
+;@sig asgofb : row -> asg
+(declare-fun asgofb ((Array Int Bool) Int) (Array Int Bool))
+(assert (forall ((R (Array Int Bool)) (o Int) (v Int))
+  (! (= (select (asgofb R o) v) (select R (+ o v))) :pattern ((select (asgofb R o) v)))))
+;@sig lem_psum_le : row rowz asg int -> bool
+(declare-fun lem_psum_le ((Array Int Int) Int (Array Int Int) Int Bool (Array Int Bool) Int) Bool)
+;@lemma psum_le
+(assert (forall ((L (Array Int Int)) (lo Int) (W (Array Int Int)) (wo Int) (wn Bool) (A (Array Int Bool)) (n Int))
+  (! (and (lem_psum_le L lo W wo wn A n)
+      (=> (or wn (forall ((j Int)) (! (=> (and (<= wo j) (< j (+ wo n))) (>= (select W j) 0)) :pattern ((select W j)))))
+          (and (<= 0 (psum L lo W wo wn A n)) (<= (psum L lo W wo wn A n) (wsum W wo wn n)))))
+     :pattern ((lem_psum_le L lo W wo wn A n)))))
